@@ -33,7 +33,7 @@ def configs(tier, seed):
                           max_len=1, cut_slice=[sl, slices])
                 out.append(cc)
     from tlv.harness import c05
-    for c5 in c05.configs(tier, seed):
+    for c5 in c05.configs("quick", seed):          # C05's thorough plans (3 records, 3 cuts) times every cut index are out of reach
         if c5["harness"] != "segmentation" or c5["isn"] != "any" or c5["transform"] == "cuts" or c5["ncuts"] == 0:
             continue
         if tier == "quick" and c5["nrec"] + c5["ncuts"] > 3:
